@@ -876,7 +876,7 @@ class Part(object):
         i = np.searchsorted(times, t)
         changed = False
 
-        if i == 0 or quarters[i - 1] != quarter:
+        if i == 0 or quarters[i - 1] != quarter or (i < len(times) and times[i] == t):
             # add or replace
             if i == len(times) or times[i] != t:
                 # add
